@@ -27,10 +27,19 @@ def run(ck, ctx):
                      "entry of the recovered checkpoint - tombstones included - is stored into the shard's replication state before the "
                      "deltas are merged onto it")
     ck.nd("equality with the ground-truth merge for all partitions of updates; order independence is delegated to C07")
+    ck.rule("R11.7", "every recovered delta is stored: recovery enters the node through the remote-delta ingest (apply_recovered_state -> "
+                     "apply_remote_deltas -> apply_remote_delta_impl -> ShardReplicaState::apply_remote_delta); that path reaches the ingest "
+                     "on every path and the ingest stores the (merged) value on every path - no early return for a delta that 'looks "
+                     "redundant' (own replica id, stamp below the clock, tombstone for an unknown key): after a restart every recovered "
+                     "delta is own-origin and the clock is rebuilt in replay order (shared with C06 R06.3 / C08 R08.5)")
     for cfg in ctx.configs:
         prog = ctx.prog(cfg)
         ck.configs.append(cfg)
         ck.fn_count += len(prog.fns)
+        from . import c06, c08
+        from .core import Alias
+        c06._r063(Alias(ck, "R06.3", "R11.7"), prog, cfg)
+        c08._r085(Alias(ck, "R08.5", "R11.7"), prog, cfg)
         _r111(ck, prog, cfg)
         _r112(ck, prog, cfg)
         _r113(ck, prog, cfg)
